@@ -3,12 +3,14 @@
 //   - Stop on an armed timer disarms it and returns true; on a fired or stopped timer it
 //     returns false and does NOT cancel a callback that is already pending or running;
 //   - Reset re-arms the timer and returns whether it was armed.
+//
 // Advance moves time and turns due timers into *pending callbacks* that do not run by
 // themselves. A pending callback is run in two steps so that the explorer can place other
 // operations between "fired", "the callback read the clock" and "the callback finished":
-//   Start(j)  starts callback j in its own goroutine and lets it run until it calls Now()
-//             (or until it returns, if it never does);
-//   Finish(h) releases it and waits for it to return.
+//
+//	Start(j)  starts callback j in its own goroutine and lets it run until it calls Now()
+//	          (or until it returns, if it never does);
+//	Finish(h) releases it and waits for it to return.
 package vclock
 
 import (
